@@ -16,7 +16,18 @@ ALL_IDS = ["C%02d" % i for i in range(1, 21)]
 
 # property id -> spec
 PROPS = {}
-HOOK_COMMITS = ['9f776bb72111114b62035c5d126ff5e878af9e5b', '9c1243072432db7f881ca4c950fb64f4d6e7c9b9', 'faca8eea725e1c7496c1e7379b7a1333211dcb42', 'ed25cc61318f2a283e5a7626bfeda61d311141e8', 'fd9205873980a5426fb272a3fe84eeb55a14089e', 'd75837bcabf257cde4cac72eb76aa2222e82a086', '74cc6018d13cbc15ea57ca160db5eefb982c0848', '57416306e7549dd0f0f36c66fd425d1846e53591', '8bdd030bbf7f005bc46a0c98e8c480fa761207ee', 'eee9a46a77dd1c341bab7bf8d30ae623bd42238f']
+def _hook_commits():
+    """every `verif hooks:` commit of /repo (add-only files guarded by the build tag), newest first"""
+    import subprocess
+    try:
+        out = subprocess.run(["git", "-C", "/repo", "log", "--format=%H", "--grep=^verif hooks:"],
+                             capture_output=True, text=True, timeout=60).stdout.split()
+        return out
+    except Exception:
+        return []
+
+
+HOOK_COMMITS = _hook_commits()
 
 
 def prop(pid, **kw):
